@@ -1,7 +1,7 @@
 """C07 — the connection heals itself, never wedges, and stays single."""
 import sockcheck
 
-LEAN_MODULES = ["PyAirtouch.Props.C07"]
+LEAN_MODULES = ["PyAirtouch.Props.C07", "PyAirtouch.Props.C07Heal"]
 LEVEL = "proof"
 MONITORS = ["c07a", "c07b", "c07c", "c01a", "c02a", "c02b"]
 
